@@ -197,7 +197,25 @@ pub fn gen_word(src: &mut Source, lang: &str, flavor: Flavor) -> String {
 
 pub fn gen_vocab(src: &mut Source, lang: &str, flavor: Flavor, lo: usize, hi: usize) -> Vec<String> {
     let n = src.range(lo, hi);
-    (0..n).map(|_| gen_word(src, lang, flavor)).collect()
+    let mut v: Vec<String> = Vec::new();
+    for _ in 0..n {
+        if !v.is_empty() && src.chance(1, 5) {
+            // a confusable sibling of an earlier word (diary / dairy, fried / fired): one edit away
+            let mut w: Vec<char> = src.pick(&v).chars().collect();
+            if w.len() >= 2 && src.chance(1, 2) {
+                let i = src.below(w.len() - 1);
+                w.swap(i, i + 1);
+            } else {
+                gen_edit(src, lang, &mut w);
+            }
+            if !w.is_empty() {
+                v.push(w.into_iter().collect());
+                continue;
+            }
+        }
+        v.push(gen_word(src, lang, flavor));
+    }
+    v
 }
 
 pub fn gen_sep(src: &mut Source, flavor: Flavor) -> &'static str {
@@ -466,4 +484,45 @@ pub fn shuffle<T>(src: &mut Source, v: &mut Vec<T>) {
         let j = src.below(k + 1);
         v.swap(k, j);
     }
+}
+
+/// normalise a word with the PINNED tables only (compose, fold, lower-case) - no library call
+pub fn pinned_normalise(lang: &str, w: &str) -> String {
+    let cs: Vec<char> = w.chars().collect();
+    let mut composed = String::new();
+    let mut i = 0;
+    while i < cs.len() {
+        if i + 1 < cs.len() {
+            let pair: String = [cs[i], cs[i + 1]].iter().collect();
+            if let Some((_, c)) = tables::compose_pairs(lang).iter().find(|(d, _)| *d == pair) {
+                composed.push_str(c);
+                i += 2;
+                continue;
+            }
+        }
+        composed.push(cs[i]);
+        i += 1;
+    }
+    let mut out = String::new();
+    for c in composed.chars() {
+        match fold_of(lang, c) {
+            Some(f) => out.push_str(f),
+            None => out.push(c),
+        }
+    }
+    out.to_lowercase()
+}
+
+/// is this (single-token) word a function word of the language according to the pinned table?
+pub fn is_pinned_function(lang: &str, w: &str) -> bool {
+    let n = pinned_normalise(lang, w);
+    tables::func_words(lang).iter().any(|f| pinned_normalise(lang, f) == n || f.to_lowercase() == w.to_lowercase())
+}
+
+/// May typed text legitimately tokenise to something else than the characters it was cut from?
+/// Only when a cut can separate a base letter from its mark, split an expanding letter, or leave
+/// a non-alphanumeric character at a word edge. Anything else must be probed, not skipped.
+pub fn retyping_may_differ(words: &[&[char]], typed_text: &str) -> bool {
+    typed_text.chars().any(|c| (0x300..0x370).contains(&(c as u32)) || "ßẞœæøŒÆØ\0".contains(c))
+        || words.iter().any(|w| w.is_empty() || !w[0].is_alphanumeric() || !w[w.len() - 1].is_alphanumeric())
 }
